@@ -5,6 +5,7 @@ import (
 	"crypto/tls"
 	"net/http"
 	"sync"
+	"time"
 
 	"github.com/enbility/ship-go/api"
 	"github.com/enbility/ship-go/logging"
@@ -60,11 +61,23 @@ type Hub struct {
 	// set once Shutdown was invoked, no connection is initiated afterwards
 	hasShutdown bool
 
+	// pairing detail updates for the application, delivered in the order they were created
+	pairingNotifications       []pairingNotification
+	pairingNotificationsActive bool
+
 	muxCon        sync.Mutex
 	muxConAttempt sync.Mutex
 	muxReg        sync.Mutex
 	muxMdns       sync.Mutex
 	muxStarted    sync.Mutex
+	muxNotify     sync.Mutex
+}
+
+// a pairing detail update waiting to be delivered to the application
+type pairingNotification struct {
+	ski    string
+	detail *api.ConnectionStateDetail
+	due    time.Time
 }
 
 func NewHub(hubReader api.HubReaderInterface,
@@ -132,6 +145,44 @@ func (h *Hub) Shutdown() {
 	}
 	if err := h.httpServer.Shutdown(context.Background()); err != nil {
 		logging.Log().Error("HTTP server shutdown:", err)
+	}
+}
+
+// report a pairing detail update to the application, not earlier than after the delay
+//
+// The updates are delivered one at a time in the order they were created, so an older
+// state is never reported after a newer one
+func (h *Hub) notifyPairingDetail(ski string, detail *api.ConnectionStateDetail, delay time.Duration) {
+	h.muxNotify.Lock()
+	defer h.muxNotify.Unlock()
+
+	h.pairingNotifications = append(h.pairingNotifications,
+		pairingNotification{ski: ski, detail: detail, due: time.Now().Add(delay)})
+
+	if !h.pairingNotificationsActive {
+		h.pairingNotificationsActive = true
+		go h.deliverPairingNotifications()
+	}
+}
+
+// deliver the queued pairing detail updates until the queue is empty
+func (h *Hub) deliverPairingNotifications() {
+	for {
+		h.muxNotify.Lock()
+		if len(h.pairingNotifications) == 0 {
+			h.pairingNotificationsActive = false
+			h.muxNotify.Unlock()
+			return
+		}
+		item := h.pairingNotifications[0]
+		h.pairingNotifications = h.pairingNotifications[1:]
+		h.muxNotify.Unlock()
+
+		if wait := time.Until(item.due); wait > 0 {
+			<-time.After(wait)
+		}
+
+		h.hubReader.ServicePairingDetailUpdate(item.ski, item.detail)
 	}
 }
 
